@@ -15,6 +15,22 @@ TRUSTED = ['PARTIAL: proved = "halts on the committed timeline iff Halts(initial
 ASSUMPTIONS = ['defined behaviour only: checked builds, or unchecked builds on runs the reference semantics finds fault-free; no reads of uninitialised elements']
 
 
+EXAMPLE_ARGS = {'hello': [()], 'factor': [('360',), ('97',), ('1',)], 'max': [('3', '9', '2', '9', '1'), ('5',)], 'mergesort': [('5', '3', '9', '1', '7', '2'), ('1',), ()],
+                'optional_max': [('1', '5', '2'), ()], 'decimal': [('1', '7'), ('22', '7'), ('1', '0')], 'sat': [()], 'ouroboros': [()], 'sphinxfuck': [()]}
+
+
+def example_units(ws):
+    import os
+    from common import REPO
+    from diffrun import Cfg
+    units = []
+    for name, argl in EXAMPLE_ARGS.items():
+        path = os.path.join(REPO, 'examples', name + '.hid')
+        if os.path.exists(path):
+            units.append((open(path).read(), [Cfg(a, w, 400, False) for a in argl for w in ws]))
+    return units
+
+
 def run(ctx):
     rng = random.Random(ctx.seed)
     q = ctx.tier == 'quick'
@@ -23,10 +39,11 @@ def run(ctx):
     from component import run_corr
     import genhist
     run_corr(ctx, 'corr_patterns', 'every emitted j classifies as a proved idiom (Patterns.classify)')
-    diff_sweep(ctx, 'directed time-travel corpus', genhist.directed_units(ws), extra=h)
+    diff_sweep(ctx, 'directed time-travel corpus', genhist.directed_units(ws), extra=h, monitor=True)
+    diff_sweep(ctx, 'examples/*.hid with fixed inputs', example_units(ws[:2]), extra=h, monitor=True, fuel=3_000_000)
     units = program_units(rng, 100 if q else 1200, ALL + ['tt', 'faults'], ws, cfgs_per=3, seed_base=ctx.seed + 300)
-    diff_sweep(ctx, 'all constructs incl. faults', units, extra=h)
-    diff_sweep(ctx, 'histories of try blocks', C02.history_units(rng, 150 if q else 2000, ws, ctx.seed + 301), extra=h)
+    diff_sweep(ctx, 'all constructs incl. faults', units, extra=h, monitor=True)
+    diff_sweep(ctx, 'histories of try blocks', C02.history_units(rng, 150 if q else 2000, ws, ctx.seed + 301), extra=h, monitor=True)
     units = program_units(rng, 40 if q else 500, ALL + ['tt'], ws, cfgs_per=2, seed_base=ctx.seed + 302, unchecked=True)
     diff_sweep(ctx, 'unchecked builds (fault-free by construction)', units, extra=h)
     st = ctx.cov['distribution']
